@@ -206,6 +206,33 @@ def mutated_ids(body):
         if t is not None and t.get('k') == 'DeclRefExpr': out.add(t.get('id'))
     return out
 
+def _walk_unfolded(n):
+    # constant-folded sub-expressions ('ev') are pure whatever they contain
+    stack = [n]
+    while stack:
+        z = stack.pop()
+        if 'ev' in z: continue
+        yield z
+        stack.extend(reversed(children(z)))
+
+_PURE_NAMES = ('operator bool', 'operator==', 'operator!=', 'operator<', 'operator>', 'operator<=', 'operator>=', 'size', 'length', 'empty', '__builtin_expect')
+_SEQ_CLASSES = ('basic_string', 'vector', 'array', 'basic_string_view', 'span')
+
+def pure_expr(e, allow_const_calls=False, mut=()):
+    """True if evaluating e has no side effect and reads none of the variables in `mut`."""
+    for y in _walk_unfolded(e):
+        k = y.get('k')
+        if k in CALLS:
+            if allow_const_calls and (y.get('cconst') or callee_name(y) in _PURE_NAMES): continue
+            # element access of a sequence container has no effect (unlike map::operator[])
+            if allow_const_calls and callee_name(y) == 'operator[]' and any(c in (y.get('cq') or '') for c in _SEQ_CLASSES): continue
+            if callee_name(y) not in ('size', 'length') or y.get('args'): return False
+        elif k in ('CXXConstructExpr', 'CXXTemporaryObjectExpr', 'LambdaExpr', 'CXXNewExpr', 'InitListExpr'): return False
+        elif k == 'DeclRefExpr' and y.get('dk') in ('Var', 'ParmVar') and y.get('id') in mut: return False
+        elif k == 'UnaryOperator' and y.get('op') in ('++', '--', '*', '&'): return False
+        elif k in ('BinaryOperator', 'CompoundAssignOperator') and y.get('op', '').endswith('=') and y.get('op') not in ('==', '!=', '<=', '>='): return False
+    return True
+
 def pure_aliases(body, allow_const_calls=False):
     """{id: init expr} for locals that are declared once with a side-effect-free initialiser over never-modified variables and are never
     modified themselves: replacing a use by the initialiser does not change the meaning of the function."""
@@ -213,24 +240,32 @@ def pure_aliases(body, allow_const_calls=False):
     out = {}
     for x in walk_no_lambda(body):
         if x.get('k') != 'VarDecl' or x.get('init') is None or x.get('id') in mut: continue
-        ok = True
-        def walk_unfolded(n):
-            # constant-folded sub-expressions ('ev') are pure whatever they contain
-            stack = [n]
-            while stack:
-                z = stack.pop()
-                if 'ev' in z: continue
-                yield z
-                stack.extend(reversed(children(z)))
-        for y in walk_unfolded(x['init']):
-            k = y.get('k')
-            if k in CALLS:
-                if allow_const_calls and (y.get('cconst') or callee_name(y) in ('operator bool', 'operator==', 'operator!=', 'operator<', 'operator>', 'operator<=', 'operator>=', 'size', 'length', 'empty', '__builtin_expect')): continue
-                if callee_name(y) not in ('size', 'length') or y.get('args'): ok = False; break
-            elif k in ('CXXConstructExpr', 'CXXTemporaryObjectExpr', 'LambdaExpr', 'CXXNewExpr', 'InitListExpr'): ok = False; break
-            elif k == 'DeclRefExpr' and y.get('dk') in ('Var', 'ParmVar') and y.get('id') in mut: ok = False; break
-            elif k == 'UnaryOperator' and y.get('op') in ('++', '--', '*', '&'): ok = False; break
-        if ok: out[x['id']] = x['init']
+        if pure_expr(x['init'], allow_const_calls, mut): out[x['id']] = x['init']
+    return out
+
+def adjacent_aliases(body):
+    """{id(IfStmt node): {var id: init}} for named conditions declared in the run of declarations immediately before an `if`:
+        const bool a = E1; const bool b = E2; if (a || b) ...
+    Every initialiser in the run and the condition itself are side-effect free, so nothing is modified between the evaluation of Ei and
+    the test: the condition means the same with Ei in place of the name, even when the variables Ei reads are modified elsewhere."""
+    mut = mutated_ids(body)
+    out = {}
+    for cs in walk_no_lambda(body):
+        if cs.get('k') != 'CompoundStmt': continue
+        kids = cs.get('c') or []
+        for i, st in enumerate(kids):
+            if st.get('k') != 'IfStmt' or st.get('init') is not None or st.get('var') is not None or st.get('cond') is None: continue
+            if not pure_expr(st['cond'], True): continue
+            run = {}
+            j = i - 1
+            while j >= 0 and kids[j].get('k') == 'DeclStmt':
+                ds = [d for d in children(kids[j]) if d.get('k') == 'VarDecl']
+                if not ds or len(ds) != len(children(kids[j])): break
+                if not all(d.get('init') is not None and pure_expr(d['init'], True) for d in ds): break
+                for d in ds:
+                    if d.get('id') not in mut: run[d['id']] = d['init']
+                j -= 1
+            if run: out[id(st)] = run
     return out
 
 def canon(e, aliases=None, neg=False, depth=0):
